@@ -62,6 +62,7 @@ var (
 	c20ConfID  = strings.Repeat("c2", 31) + "01"
 	c20CsvID   = strings.Repeat("c2", 31) + "02"
 	c20ConfID2 = strings.Repeat("c2", 31) + "03"
+	c20ProbeID = strings.Repeat("c2", 31) + "04"
 )
 
 type c20Fam struct {
@@ -199,6 +200,10 @@ type c20Exec struct {
 	viols      []mc.Violation
 	flags      map[string]bool // informational classes seen in this execution
 	extra      map[string]int  // multi families: reports per additional registration
+	probing    bool
+	reregs     int  // repeated registrations of the same watch
+	regWithFault bool // a fault was pending when the first registration was made
+	reregClean   bool // a repeated registration was made with no fault pending
 	closed     bool
 	ev         int
 	evName     string
@@ -416,6 +421,10 @@ func c20ErrClass(s string) string {
 }
 
 func (x *c20Exec) onCsv(swapID string) error {
+	if swapID == c20ProbeID {
+		x.extra[swapID]++
+		return nil
+	}
 	defer c20SlowCallback()
 	if x.closed {
 		return nil
@@ -450,7 +459,8 @@ func (x *c20Exec) onCsv(swapID string) error {
 	}
 	prev := x.reports
 	x.reports = append(x.reports, r)
-	if len(prev) > 0 {
+	if len(prev) > x.reregs {
+		// at most one report per registration (a repeated registration may be answered once more)
 		x.add("csv_reported_twice", x.describe(r))
 	}
 	t := x.judged(r, func(t c20Truth) bool { return t.Exists && t.Height != 0 && uint32(t.depth()) >= x.CSV })
@@ -566,8 +576,68 @@ func (x *c20Exec) drainCsv() {
 	}
 	t = x.truth()
 	if len(x.reports) == 0 && t.Exists && !t.Spent && t.Height != 0 && uint32(t.depth()) >= x.CSV {
-		x.add("csv_maturity_never_reported_after_services_recovered", fmt.Sprintf("family %s: CSV registration open, output unspent and %d deep (csv %d), all services healthy for the last %d blocks: no maturity report", x.f.Name, t.depth(), x.CSV, 3))
+		how := ""
+		switch {
+		case x.reregClean:
+			how = ":although_registered_again"
+		case x.regWithFault || x.reregs > 0:
+			how = ":registration_failed_silently"
+		}
+		x.add("csv_maturity_never_reported_after_services_recovered"+how, fmt.Sprintf("family %s: CSV registration open, output unspent and %d deep (csv %d), all services healthy for the last %d blocks: no maturity report", x.f.Name, t.depth(), x.CSV, 3))
 	}
+}
+
+// heightDuringOutage (only as a sub-check of C04 / C05): from the state reached the node's chain backend stops
+// answering getblockcount while the chain grows by two blocks; the swap actions decide "still inside the payment
+// window?" from GetBlockHeight, so the watcher must then answer with an error or with the true tip - never with an
+// older height it remembers.
+func (x *c20Exec) heightDuringOutage() {
+	a, ok := x.wa.(*c20RPC)
+	if !ok || x.internal != "" {
+		return
+	}
+	x.w.Faults = map[string][]int{}
+	for k := 0; k < 40; k++ {
+		// the whole backend is unreachable
+		for _, m := range []string{"getblockcount", "getblockhash", "gettxout", "getrawtransaction"} {
+			x.w.AddFault(c20Node, x.f.Chain+"."+m, k)
+		}
+	}
+	x.c.MineQuiet(2)
+	time.Sleep(3 * time.Second) // several polls of the block watcher, all failing
+	synctest.Wait()
+	h, err := a.tw.GetBlockHeight()
+	tip := x.c.Tip()
+	if err == nil && h != tip {
+		x.add(fmt.Sprintf("height_answer_stale_during_outage:behind=%d", int64(tip)-int64(h)), fmt.Sprintf("family %s: getblockcount fails, the chain is at base+%d, GetBlockHeight answers base+%d without an error", x.f.Name, int64(tip)-int64(x.base), int64(h)-int64(x.base)))
+	}
+	x.w.Faults = map[string][]int{}
+}
+
+// dispatcherProbe (C18 sub-check): is the watcher's block dispatcher still alive?  A fresh CSV watch that matures with
+// the NEXT block can only be reported through the dispatcher (poller -> dispatcher -> HandleCsvTx); a dispatcher that
+// is stuck for good (e.g. in a send to an observer that has finished) never reports it.
+func (x *c20Exec) dispatcherProbe() {
+	a, ok := x.wa.(*c20RPC)
+	if !ok || x.internal != "" {
+		return
+	}
+	t := x.truth()
+	if !t.Exists || t.Height == 0 || t.Spent {
+		return
+	}
+	x.w.Faults = map[string][]int{}
+	x.c.StaleOnce, x.stalePrev, x.races = false, false, nil
+	x.probing = true
+	a.tw.AddWaitForCsvTx(c20ProbeID, x.txid, 0, x.S, uint32(t.depth())+1, nil)
+	synctest.Wait()
+	x.c.Mine(1, true)
+	time.Sleep(5 * time.Second)
+	synctest.Wait()
+	if x.extra[c20ProbeID] == 0 {
+		x.add("block_dispatcher_dead:fresh_csv_watch_never_reported", fmt.Sprintf("family %s: after the history a new CSV watch (maturing with the next block) was registered and a block was mined; 5 s later nothing was reported", x.f.Name))
+	}
+	x.probing = false
 }
 
 func (x *c20Exec) pendingFaults() bool {
@@ -629,6 +699,15 @@ func (x *c20Exec) apply(e mc.Event) {
 		x.races = append(x.races, c20Race{Method: e.Arg[:strings.Index(e.Arg, ">")], Action: e.Arg[strings.Index(e.Arg, ">")+1:], K: e.N})
 	case "reg":
 		x.regd = true
+		x.regWithFault = x.pendingFaults()
+		x.wa.reg(x.f.Kind)
+		synctest.Wait()
+	case "rereg":
+		// the swap registers the same watch again (a maker does when it moves on to its wait-for-CSV state)
+		x.reregs++
+		if !x.pendingFaults() {
+			x.reregClean = true
+		}
 		x.wa.reg(x.f.Kind)
 		synctest.Wait()
 	default:
@@ -693,6 +772,8 @@ func (x *c20Exec) enabled() []mc.Event {
 	mempool := (t.Exists && t.Height == 0) || (sp != nil && sp.Height == 0)
 	if !x.regd {
 		out = append(out, mc.Event{Name: "reg"})
+	} else if x.f.Kind == "csv" && x.reregs == 0 && len(x.reports) == 0 {
+		out = append(out, mc.Event{Name: "rereg"})
 	}
 	if !t.Exists {
 		out = append(out, mc.Event{Name: "submit"})
@@ -818,7 +899,7 @@ func (x *c20Exec) key() string {
 	// the block hashes, which the watchers compare with each other and with
 	// the poller's last one (hashIsTip in the RPC adapter's part of the key)
 	return fmt.Sprintf("%s|tip+%d|tx=%s spent=%v spender=%s|%s stale=%v races=%v|reg=%v reports=%v extra=%d/%d|%s|v=%v",
-		x.f.Name, t.Tip-x.base, st(t.Exists, t.Height), t.Spent, sps, x.w.FaultKey(), fmt.Sprint(x.c.StaleOnce, x.stalePrev), rc, x.regd, rs, x.extra[c20CsvID], x.extra[c20ConfID2], x.wa.obsKey(), vk)
+		x.f.Name, t.Tip-x.base, st(t.Exists, t.Height), t.Spent, sps, x.w.FaultKey(), fmt.Sprint(x.c.StaleOnce, x.stalePrev), rc, x.regd, rs, x.extra[c20CsvID]+10*x.reregs, x.extra[c20ConfID2], x.wa.obsKey(), vk)
 }
 
 func (x *c20Exec) outcome() string {
@@ -881,6 +962,9 @@ func c20Runner(t *testing.T, f *c20Fam) mc.Runner {
 				if os.Getenv("VERIF_C20_DRAIN") != "" {
 					x.drainCsv()
 				}
+				if os.Getenv("VERIF_C20_HEIGHT") != "" {
+					x.heightDuringOutage()
+				}
 				if os.Getenv("VERIF_C20_SLOWCB") != "" {
 					// long after the last event every callback has returned: whoever still waits for a
 					// lock of the watcher waits for a holder that is itself blocked for good
@@ -888,6 +972,8 @@ func c20Runner(t *testing.T, f *c20Fam) mc.Runner {
 					synctest.Wait()
 					if ws := vsync.Waiters(); len(ws) > 0 {
 						x.add("goroutine_waits_for_watcher_lock_forever:"+c20LockSite(ws), strings.Join(ws, "\n---\n"))
+					} else {
+						x.dispatcherProbe()
 					}
 				}
 				res.Violations = x.viols
@@ -1492,7 +1578,8 @@ func (a *c20Lnd) faults() []mc.Event {
 	if a.x.f.Kind == "conf" {
 		return []mc.Event{{Name: "fault", Arg: "lnd.getinfo"}}
 	}
-	return nil
+	// lnd refuses the registration (starting up / unreachable)
+	return []mc.Event{{Name: "fault", Arg: "lnd.registerconf"}}
 }
 
 // ---------------------------------------------------------------- workers
